@@ -119,6 +119,24 @@ class Ctx(object):
     def exclude(self, why, n=1):
         self.excluded[why] += n
 
+    def keep(self, case, group, per_group=2, limit=400):
+        """Remember a few cases per group for the fresh-process order probe (see order_probe)."""
+        b = self.__dict__.setdefault("_battery", collections.OrderedDict())
+        if sum(len(v) for v in b.values()) >= limit:
+            return
+        g = b.setdefault(group, [])
+        if len(g) < per_group:
+            g.append(_jsonable(case))
+
+    def battery(self):
+        out = []
+        groups = list(self.__dict__.get("_battery", {}).values())
+        i = 0
+        while any(len(g) > i for g in groups):   # interleave the groups
+            out.extend(g[i] for g in groups if len(g) > i)
+            i += 1
+        return out
+
     # ---- failures -----------------------------------------------------
     def handle(self, case, fails):
         """fails: iterable of (key, detail).  Known keys are counted; others
@@ -227,6 +245,112 @@ def run_given(ctx, strategy, body, max_examples, label="main", shrink=None, roun
             raise HarnessError("flaky test body in %s/%s: %s" % (ctx.pid, label, e))
         remaining -= max(1, calls[0])
     return
+
+
+# ----------------------------------------------------------------------
+# Fresh-process order probe: the verdict on a case must not depend on what the process did before
+
+def replay_any(mod, case):
+    """mod.replay(case), or -- for {"sequence": [c1, ..., cn]} -- replay every element in order (one process) and return the
+    failures of the last one.  Order-dependent failures are saved in that form; a replay is a fresh process by construction."""
+    if isinstance(case, dict) and "sequence" in case and isinstance(case["sequence"], list):
+        fails = []
+        for c in case["sequence"]:
+            fails = list(mod.replay(c) or [])
+        return fails
+    return list(mod.replay(case) or [])
+
+
+def run_sequence(pid, seq, timeout=1800):
+    """Run the cases of `seq` in order in ONE fresh interpreter; -> list (per position) of [(key, detail), ...]."""
+    import subprocess
+    import sys
+    import tempfile
+    tmp = tempfile.mkdtemp(prefix="verif-seq-")
+    try:
+        fin, fout = os.path.join(tmp, "seq.json"), os.path.join(tmp, "out.json")
+        with open(fin, "w") as f:
+            json.dump({"cases": seq}, f)
+        p = subprocess.run([sys.executable, os.path.join(VERIF, "run.py"), pid, "--sequence", fin, "--out", fout],
+                           stdout=subprocess.PIPE, stderr=subprocess.STDOUT, timeout=timeout)
+        if not os.path.exists(fout):
+            raise HarnessError("sequence run produced no result (rc=%s): %s" % (p.returncode, p.stdout.decode(errors="replace")[-1500:]))
+        with open(fout) as f:
+            res = json.load(f)
+        if res.get("error"):
+            raise HarnessError("sequence run failed: %s" % res["error"])
+        return [[tuple(x) for x in fl] for fl in res["fails"]]
+    finally:
+        import shutil
+        shutil.rmtree(tmp, ignore_errors=True)
+
+
+def _shrink_sequence(pid, prefix, target, key, budget=30):
+    """ddmin over the predecessors: smallest found list P' (subsequence of prefix) such that P' + [target] still shows `key`
+    in a fresh process."""
+    def shows(pre):
+        res = run_sequence(pid, list(pre) + [target])
+        return any(k == key for k, _ in res[-1])
+    cur = list(prefix)
+    runs = 0
+    if runs < budget and shows([]):
+        return []
+    n = 2
+    while len(cur) >= 2 and runs < budget:
+        size = max(1, len(cur) // n)
+        chunks = [cur[i:i + size] for i in range(0, len(cur), size)]
+        reduced = False
+        for i in range(len(chunks)):
+            comp = [x for j, ch in enumerate(chunks) if j != i for x in ch]
+            runs += 1
+            if shows(chunks[i]):
+                cur, n, reduced = chunks[i], 2, True
+                break
+            runs += 1
+            if shows(comp):
+                cur, n, reduced = comp, max(n - 1, 2), True
+                break
+            if runs >= budget:
+                break
+        if not reduced:
+            if n >= len(cur):
+                break
+            n = min(len(cur), n * 2)
+    return cur
+
+
+def order_probe(ctx, cases=None, version_of=None, first=None, max_cases=240):
+    """The kept battery is executed in fresh processes in several orders (as generated, reversed, all STIX 2.0 cases first, all
+    2.1 cases first); every case is judged by the property's own oracle (mod.replay).  A failure that only shows after certain
+    predecessors is state carried across calls (caches, class-level tables, registries).  `first`: optional cases put in front
+    of every order (e.g. a parse before the harness registers its custom types)."""
+    cases = (cases if cases is not None else ctx.battery())[:max_cases]
+    if len(cases) < 2:
+        return
+    version_of = version_of or (lambda c: c.get("ver") or c.get("version"))
+    idx = list(range(len(cases)))
+    orders = [("as-generated", idx), ("reversed", idx[::-1]),
+              ("2.0-first", sorted(idx, key=lambda i: (version_of(cases[i]) != "2.0", i))),
+              ("2.1-first", sorted(idx, key=lambda i: (version_of(cases[i]) != "2.1", -i)))]
+    done = {}
+    for name, perm in orders:
+        seq = list(first or []) + [cases[i] for i in perm]
+        res = run_sequence(ctx.pid, seq)
+        ctx.evaluations += len(seq)
+        ctx.classes["order-probe:" + name] += len(seq)
+        for pos, fails in enumerate(res):
+            for key, detail in fails:
+                if key in ctx.known_open:
+                    ctx.known_counts[key] += 1
+                    continue
+                if key in ctx.suppressed:
+                    continue
+                pre = _shrink_sequence(ctx.pid, seq[:pos], seq[pos], key)
+                case = {"sequence": pre + [seq[pos]]} if pre else seq[pos]
+                ctx.record_violation(key, "%s [fresh process, order %s, after %d predecessor(s)%s]" % (
+                    detail, name, len(pre), "; does not fail when run alone" if pre else ""), case)
+        done[name] = len(seq)
+    ctx.notes["order_probe"] = {"cases": len(cases), "orders": done}
 
 
 def _label_salt(label):
